@@ -412,8 +412,10 @@ package graphql
 //@   ensures errs == nil ==> rc != nil
 //@   ensures errs != nil ==> len(errs) > 0
 //@   ensures errs == nil ==> rc.Doc != nil && rc.Operation != nil && rc.Operation == forName(rc.Doc.Operations, rc.OperationName)
+// (assumption: operation interceptors hand back a handler - the transports call it)
 //@ trusted (GraphExecutor).DispatchOperation(ctx, rc) (h, c)
 //@   requires rc != nil
+//@   ensures h != nil
 // (assumption: response interceptors return the response they were given or another non-nil one)
 //@ trusted (GraphExecutor).DispatchError(ctx, list) (resp)
 //@   ensures resp != nil
@@ -647,7 +649,7 @@ package graphql
 //@   pure
 //@ trusted runtime/debug.PrintStack()
 //@   pure
-//@ func DefaultRecover [C06,C04]
+//@ func DefaultRecover [C06,C04,C07]
 //@   ensures res0 != nil && local(res0)
 
 // FieldSet representation invariant len(fields) == len(Values): established by NewFieldSet, preserved by AddField
@@ -665,6 +667,10 @@ package graphql
 // the server's recover hook - C04), never return after a failed marshal having written nothing.
 //@ trusted (ContextMarshaler).MarshalGQLContext(ctx, w) (err)
 //@ func (Omittable[T]).MarshalGQL [C08]
+// the only marshalers consulted are the wrapped value's own (it IS a Marshaler / ContextMarshaler) - anything else
+// goes through encoding/json, whose error is checked
+//@   callsite MarshalGQL: requires recv == value
+//@   callsite MarshalGQLContext: requires recv == value
 //@   replay omittableMarshal.go.tmpl
 //@   ghost failed = false
 //@   at! `json.Marshal(value)` ghost failed = callres1 != nil
@@ -672,6 +678,10 @@ package graphql
 //@   callsite Write: requires !failed
 //@   ensures !failed
 //@ func (Omittable[T]).MarshalGQLContext [C08]
+// the only marshalers consulted are the wrapped value's own (it IS a Marshaler / ContextMarshaler) - anything else
+// goes through encoding/json, whose error is checked
+//@   callsite MarshalGQL: requires recv == value
+//@   callsite MarshalGQLContext: requires recv == value
 //@   replay omittableMarshal.go.tmpl
 //@   ghost failed = false
 //@   at! `json.Marshal(value)` ghost failed = callres1 != nil
@@ -713,3 +723,15 @@ package graphql
 //@   ghost failed = false
 //@   at! `json.NewEncoder(w).Encode(v)` ghost failed = callres0 != nil
 //@   ensures !failed
+
+// ---------------------------------------------------------------- C06: response extensions registered by resolvers
+// Resolvers of sibling fields run concurrently and may each register an extension: the map is created, looked up
+// and written only while extensionsMu is held (so no registration is lost to a concurrent first use), and nothing
+// else is touched.
+//@ func RegisterExtension [C06]
+//@   ghost held = false
+//@   at! `c.extensionsMu.Lock()` ghost held = true
+//@   at! `defer c.extensionsMu.Unlock()` requires held
+//@   at `assign c.extensions` requires held
+//@   at! `assign c.extensions[*]` requires held && idx == key && rhs0 == value
+//@   modifies responseContext.extensions maps
